@@ -394,6 +394,42 @@ def correspondence(ctx, info, ok):
     return n
 
 
+# =========================================================================== helpers every worker calls
+
+def util_oracles(ctx):
+    """Utilities::argsort (the idle workers rank the per-thread queues with it; idle queues have
+    size 0, so ties are the rule) on vectors of 0..100 elements with many ties, under
+    AddressSanitizer: the result must be a permutation that sorts the input."""
+    h = vlib.build_harness("c12_util", sanitize=True)
+    ops = []
+    for n in range(0, 101):
+        vs = [[0] * n, [i % 2 for i in range(n)], [(n - i) // 3 for i in range(n)], [ctx.rng.randint(0, 3) for _ in range(n)]]
+        if n % 10 == 0:
+            vs.append([ctx.rng.randint(0, 1000) for _ in range(n)])
+        for j, v in enumerate(vs):
+            ops.append("argsort %s %d %s" % ("u" if j != 2 else "d", n, " ".join(map(str, v))))
+    rc, out, err = vlib.run_exe(h, "\n".join(ops) + "\n", env={"ASAN_OPTIONS": "detect_leaks=0:halt_on_error=1", "UBSAN_OPTIONS": "print_stacktrace=1:halt_on_error=1"})
+    ans, orc = vlib.split_oracle(out)
+    st = ctx.cov["correspondence_streams"].setdefault("utilities-oracles", {"lines": 0, "mismatches": 0, "oracle_failures": 0})
+    st["lines"] += len(ops)
+    st["oracle_failures"] += len(orc)
+    for op in ops[:len(ans)]:
+        ctx.count()
+        ctx.distinct(("util", op), nontrivial=int(op.split()[2]) > 1)
+    ctx.branch("util-argsort", len(ans))
+    for o in orc[:3]:
+        m = re.search(r"line=(\d+)", o)
+        i = int(m.group(1)) - 1 if m else 0
+        what = re.sub(r"line=\d+\s*", "", o[len("ORACLE"):]).strip()
+        ctx.violation("util:" + what.split()[0], "Utilities::argsort fails on the implementation: %s; input: %s" % (what, ops[i][:200]), {"stream": "utilities", "ops": [ops[i]], "oracle": o})
+    if rc != 0:
+        k = min(len(ans), len(ops) - 1)
+        m = SAN_RE.search(err)
+        ctx.violation("util:argsort-invalid-memory-access", "Utilities::argsort: the sanitized harness died (status %d) on the vector of %s elements: %s; input: %s"
+                      % (rc, ops[k].split()[2], (err[m.start():m.start() + 200].replace("\n", " | ") if m else err[-200:]), ops[k][:200]),
+                      {"stream": "utilities", "ops": [ops[k]], "stderr": re.sub(r"0x[0-9a-f]{6,}", "0x..", re.sub(r"==\d+==", "==pid==", err[:1500]))})
+
+
 # =========================================================================== whole runs (SEARCH)
 
 def b(v):
@@ -822,6 +858,35 @@ def run_plan(ctx):
         c = dict(c, restart_interval="0. s", total_time=0.003)
         plan.append(dict(name=name, kind="restart", param=rhd_param(c), threads=threads, san_quick=sq,
                          stages=[(["--task-based-rhd", "--number-of-steps", "2"], [r"restart\.dump"]), (["--task-based-rhd", "--restart", "."], live_expect(c))]))
+    # restart dumps: every configured number of backups, >= 4 dumps in one process (a dump at every
+    # step) and more dumps after the restart; the restarted process has MORE threads than the one
+    # that wrote the dump
+    for nb in (0, 1, 2, 3):
+        c = dict(layout=(2, 2, 1), cells=ORDERINGS[nb], live=True, restart_interval="0. s", total_time=0.003, backups=nb)
+        files = [r"restart\.dump"] + [r"restart\.%d\.back" % i for i in range(nb)]
+        plan.append(dict(name="restart-%d-backups" % nb, kind="restart", param=rhd_param(c), threads=1 + nb % 2, san_quick=(nb == 2),
+                         stages=[(["--task-based-rhd", "--number-of-steps", "5"], files, 1 + nb % 2),
+                                 (["--task-based-rhd", "--restart", ".", "--number-of-steps", "9"], files, 3 + nb),
+                                 (["--task-based-rhd", "--restart", "."], files + live_expect(c), 4 + nb)]))
+    # restart with more threads than the dumping run, with radiation (must pass)
+    c = dict(layout=(2, 1, 2), cells=(2, 4, 3), radiation=True, live=True, restart_interval="0. s", total_time=0.003, **SMALL)
+    plan.append(dict(name="restart-radiation-more-threads", kind="restart", param=rhd_param(c), threads=1, san_quick=False,
+                     stages=[(["--task-based-rhd", "--number-of-steps", "2"], [r"restart\.dump"], 1), (["--task-based-rhd", "--restart", "."], live_expect(c), 3)]))
+    # recorded finding: restart with FEWER threads than the run that wrote the dump (the subgrids'
+    # owning thread is restored from the dump and indexes the per-thread queues).  Exactly this
+    # configuration class carries the key; with the repair applied it is an ordinary passing run.
+    c = dict(layout=(2, 2, 2), cells=(2, 2, 2), restart_interval="0. s", total_time=0.004)
+    plan.append(dict(name="restart-fewer-threads", kind="finding", param=rhd_param(c), threads=4, san_quick=True, key="run:restart-with-fewer-threads-queue-index-out-of-range", key_stage=1,
+                     stages=[(["--task-based-rhd", "--number-of-steps", "2"], [r"restart\.dump"], 4), (["--task-based-rhd", "--restart", ".", "--number-of-steps", "4"], [], 2)]))
+    # thread counts above the number of cores and above the small-size thresholds of the standard
+    # library (sorting networks / insertion sort up to 16 elements, ...): tiny problems
+    for nth in ([17, 33] if not ctx.thorough else [17, 24, 33, 64]):
+        c = dict(cells=(2, 3, 2), layout=(2, 2, 1), photons=1000, iterations=2, diffuse=True, copy_level=1, ntasks=3000, nbuf=600, queue=1500)
+        plan.append(dict(name="tbi-%d-threads" % nth, kind="tbi-threads", param=tbi_param(c), threads=nth, stages=[(["--task-based"], [r"snap\d+\.txt"])], san_quick=(nth == 17)))
+        c = dict(layout=(2, 2, 1), cells=(2, 3, 2), live=True, total_time=0.001, snaptime=0.001)
+        if nth < 64:
+            c.update(radiation=True, photons=401, iterations=1, radtime=0.0005, ntasks=3000, nbuf=600, queue=1500)
+        plan.append(dict(name="rhd-%d-threads" % nth, kind="rhd-threads", param=rhd_param(c), threads=nth, stages=[(["--task-based-rhd"], live_expect(c))], san_quick=(nth == 17)))
     plan.append(dict(name="rhd-dry-run", kind="rhd", param=rhd_param(dict(layout=(2, 2, 1), live=True)), threads=1, stages=[(["--task-based-rhd", "--dry-run"], [])], san_quick=False))
     for item in tbi_configs(ctx):
         (name, c, types, threads, sq), repeat = item[:5], (item[5] if len(item) > 5 else 1)
@@ -877,26 +942,30 @@ def whole_runs(ctx, binary, label, plan, env=None, timeout=60, wrapper=None):
         for irep in range(nrep):
             d = tempfile.mkdtemp(prefix="verif_c12_")
             cmds = []
-            for (args, expect) in it["stages"]:
+            for istage, stage in enumerate(it["stages"]):
+                (args, expect), nth = stage[:2], (stage[2] if len(stage) > 2 else it["threads"])
                 # the worker loops spin: on an oversubscribed machine an 8-thread run that takes 1 s
                 # can take minutes.  The limit grows with the load, and a run that hits it is
                 # repeated once with four times the limit before it is called a hang.
                 ncpu = os.cpu_count() or 1
                 tmo = timeout * max(1.0, min(4.0, os.getloadavg()[0] / ncpu))
-                res, _ = run_binary(binary, it["param"], args, it["threads"], aux=it.get("aux"), env=env, keepdir=d, timeout=tmo, wrapper=wrapper)
+                if nth > ncpu:
+                    tmo *= 2        # more spinning workers than cores
+                res, _ = run_binary(binary, it["param"], args, nth, aux=it.get("aux"), env=env, keepdir=d, timeout=tmo, wrapper=wrapper)
                 if res["timed_out"] and os.getloadavg()[0] > 0.75 * ncpu:
                     stats["retried_after_timeout_under_load"] = stats.get("retried_after_timeout_under_load", 0) + 1
-                    res, _ = run_binary(binary, it["param"], args, it["threads"], aux=it.get("aux"), env=env, keepdir=d, timeout=4 * tmo, wrapper=wrapper)
+                    res, _ = run_binary(binary, it["param"], args, nth, aux=it.get("aux"), env=env, keepdir=d, timeout=4 * tmo, wrapper=wrapper)
                 stats["runs"] += 1
                 ctx.count()
-                cmds.append("CMacIonize --params run.param --threads %d %s --dirty" % (it["threads"], " ".join(args)))
+                cmds.append("CMacIonize --params run.param --threads %d %s --dirty" % (nth, " ".join(args)))
                 ok, what = classify_run(res, expect)
                 if not ok:
                     okall = False
                     hits += 1
                     if hits == 1:
                         report(it["name"], what + (" (repetition %d of %d of the same command)" % (irep + 1, nrep) if nrep > 1 else ""),
-                               it["param"], " ; ".join(cmds), res, it.get("aux"), key=it.get("key"))
+                               it["param"], " ; ".join(cmds), res, it.get("aux"),
+                               key=it.get("key") if (it.get("key_stage") is None or (it["key_stage"] == istage and not res["timed_out"])) else None)
                     break
             shutil.rmtree(d, ignore_errors=True)
             if not okall and res["timed_out"]:
@@ -1174,6 +1243,7 @@ def run(ctx):
                 ctx.broken_obligation("Lean driver drv_c12 does not build", out[-1500:])
         if ok or okd:
             correspondence(ctx, info, ok)
+    util_oracles(ctx)
     plan = run_plan(ctx)
     whole_runs(ctx, binary, "normal", plan, timeout=60)
     # memory checker: the ASan/UBSan build of the whole binary (kept incremental in .build; an
@@ -1248,6 +1318,14 @@ def replay(ctx, path):
             print(res["log"][-1200:])
             bad = bad or not okk
         shutil.rmtree(d, ignore_errors=True)
+        print("REPRODUCED" if bad else "not reproduced")
+        return 1 if bad else 0
+    if obj.get("stream") == "utilities":
+        h = vlib.build_harness("c12_util", sanitize=True)
+        rc, out, err = vlib.run_exe(h, "\n".join(obj["ops"]) + "\n", env={"ASAN_OPTIONS": "detect_leaks=0"})
+        print("ops:\n  " + "\n  ".join(obj["ops"]))
+        print("implementation (rc=%d):\n%s%s" % (rc, out, err[-1500:]))
+        bad = rc != 0 or "ORACLE" in out
         print("REPRODUCED" if bad else "not reproduced")
         return 1 if bad else 0
     if obj.get("ops"):
